@@ -1715,3 +1715,69 @@ Proof.
   - repeat split; [apply c01_monitor|apply c02_monitor|apply c03_monitor|apply c04_monitor|apply c09_monitor]; assumption.
   - repeat split; [apply c01_monitor1|apply c02_monitor1|apply c03_monitor1|apply c04_monitor1|apply c09_monitor1]; assumption.
 Qed.
+
+(* ---------- C18: the fields a logout response is judged by are those of IdP-signed content ---------- *)
+
+Lemma sig_false_Issuer : seqb "Issuer" "Signature" = false. Proof. reflexivity. Qed.
+Lemma sig_false_Status : seqb "Status" "Signature" = false. Proof. reflexivity. Qed.
+Lemma sig_false_StatusCode : seqb "StatusCode" "Signature" = false. Proof. reflexivity. Qed.
+
+Lemma un_status_vis K K' : vis_kids K K' -> un_status K' = un_status K.
+Proof.
+  intros HK. unfold un_status, child_ns.
+  pose proof (child_vis (named NS_P "Status") _ _ (named_pred NS_P "Status" sig_false_Status) HK) as H.
+  destruct (merge (filter (named NS_P "Status") K)) as [m|], (merge (filter (named NS_P "Status") K')) as [m'|];
+    simpl in H; try contradiction; [|reflexivity].
+  destruct H as [_ [_ Hk]].
+  pose proof (child_vis (named NS_P "StatusCode") _ _ (named_pred NS_P "StatusCode" sig_false_StatusCode) Hk) as H2.
+  destruct (merge (filter (named NS_P "StatusCode") (mg_kids m))) as [c|],
+           (merge (filter (named NS_P "StatusCode") (mg_kids m'))) as [c'|]; simpl in H2; try contradiction; [|reflexivity].
+  destruct H2 as [Ha _]. rewrite Ha. reflexivity.
+Qed.
+
+Theorem un_response_named_visible tag e : un_response_named tag (visible e) = un_response_named tag e.
+Proof.
+  destruct e as [ns t attrs kids| | | |]; try reflexivity.
+  rewrite visible_el. set (K' := Txt (chardata kids) :: vgo kids).
+  assert (HK : vis_kids kids K') by (exact (vis_kids_visible (El ns t attrs kids))).
+  unfold un_response_named. destruct (negb (seqb ns NS_P && seqb t tag)); [reflexivity|].
+  destruct (time_attr "IssueInstant" attrs) as [issue| |]; cbn [bind]; try reflexivity.
+  rewrite (un_status_vis _ _ HK).
+  pose proof (child_vis (named NS_A "Issuer") _ _ (named_pred NS_A "Issuer" sig_false_Issuer) HK) as HI.
+  unfold child_ns.
+  destruct (merge (filter (named NS_A "Issuer") kids)) as [m|], (merge (filter (named NS_A "Issuer") K')) as [m'|];
+    simpl in HI; try contradiction; [|reflexivity].
+  destruct HI as [_ [Ht _]]. rewrite Ht. reflexivity.
+Qed.
+
+(* Dolev-Yao reading of C18: if the trusted keys have signed nothing but (canonical equivalents of)
+   the elements of H, a logout response reported valid reads, field for field, as one of them *)
+Theorem logout_valid_is_signed_content cfg H now r :
+  honest_signers cfg H r -> validate_logout cfg now (DRoot r) = Ok tt ->
+  exists h resp, In h H /\ un_response_named "LogoutResponse" h = Ok resp /\
+                 un_response_named "LogoutResponse" r = Ok resp /\
+                 r_dest resp = slo_url cfg /\ r_issuer resp = Some (idp_entity cfg) /\
+                 r_status resp = STATUS_SUCCESS /\ now <= r_issue resp + max_issue_delay cfg.
+Proof.
+  intros Hh Hv.
+  assert (Hc : covered_self cfg r = true).
+  { apply validate_logout_iff in Hv. unfold logout_valid in Hv.
+    apply andb_prop in Hv. destruct Hv as [Hv _]. apply validate_signature_covered.
+    destruct (validate_signature cfg r); simpl in Hv; congruence. }
+  destruct (covered_honest cfg H r r Hh (incl_refl _) Hc) as [h [uri [signer [ki [over [rest [Hin [Hf Hcan]]]]]]]].
+  assert (Hvis : visible r = visible h).
+  { rewrite <- (visible_strip r), <- (visible_find_sig _ _ _ _ _ _ _ Hf), <- (visible_canon rest), Hcan. apply visible_canon. }
+  unfold validate_logout in Hv.
+  destruct (sigv_eqb (validate_signature cfg r) SValid); cbn [guard bind] in Hv; [|discriminate].
+  destruct (un_response_named "LogoutResponse" r) as [resp| |] eqn:Er; cbn [bind] in Hv; try discriminate.
+  exists h, resp. split; [exact Hin|]. split.
+  { rewrite <- (un_response_named_visible _ h), <- Hvis, un_response_named_visible. exact Er. }
+  split; [reflexivity|].
+  destruct (seqb (r_dest resp) (slo_url cfg)) eqn:Ed; cbn [guard bind] in Hv; [|discriminate].
+  destruct (r_issue resp + max_issue_delay cfg <? now) eqn:Et; cbn [negb guard bind] in Hv; [discriminate|].
+  destruct (r_issuer resp) as [i|] eqn:Ei; [|cbn [guard bind] in Hv; discriminate].
+  destruct (seqb i (idp_entity cfg)) eqn:Eie; cbn [guard bind] in Hv; [|discriminate].
+  destruct (seqb (r_status resp) STATUS_SUCCESS) eqn:Es; cbn [guard] in Hv; [|discriminate].
+  apply String.eqb_eq in Ed, Eie, Es. apply Z.ltb_ge in Et. subst i.
+  repeat split; auto.
+Qed.
